@@ -177,7 +177,8 @@ Definition alias_node (n : str) : value := node "ASTAlisaExpression" [("name", V
 Definition parse_alias (ts : toks) : PR :=
   let '(b, t1) := take_up (S "AS") ts in
   if b then let* (n, t2) := get_alias_name t1 in Ok (alias_node n, t2)
-  else if peek_mark M_NAME ts then let* (s, t2) := pop_src ts in Ok (alias_node (unify_name s), t2)
+  else if peek_mark M_NAME ts && negb (peek_set_up [S "CROSS"; S "USING"; S "SORT"; S "DISTRIBUTE"; S "CLUSTER"] ts)
+       then let* (s, t2) := pop_src ts in Ok (alias_node (unify_name s), t2)
   else Ok (VNone, ts).
 
 Definition parse_multi_alias (ts : toks) : PR :=
@@ -298,7 +299,8 @@ Section Body.
         let* (p, i5) := pop_children i4 in
         let item t := let* (s, t') := pop_src t in let* z := int_of s in Ok (VInt z, t') in
         let* (vs, p1) := call_args item true p in
-        Ok (vtuple vs, i5)                 (* the parameter scanner is not closed by the code *)
+        let* _ := close p1 in
+        Ok (vtuple vs, i5)
       else Ok (VNone, i4) in
     let* _ := close i5 in
     Ok (node "ASTCastFunctionExpression"
